@@ -377,6 +377,10 @@ class CalendarSystem(metaclass=_CalendarSystemMeta):
     def get_islamic_calendar(cls, leap_year_pattern: IslamicLeapYearPattern, epoch: IslamicEpoch) -> CalendarSystem:
         _Preconditions._check_argument_range("leap_year_pattern", int(leap_year_pattern), 1, 4)
         _Preconditions._check_argument_range("epoch", int(epoch), 1, 2)
+        # Plain ints pass the range checks above; work with the enum members from here on, so that the result
+        # doesn't depend on whether the calendar happens to have been created already.
+        leap_year_pattern = IslamicLeapYearPattern(leap_year_pattern)
+        epoch = IslamicEpoch(epoch)
         match (epoch, leap_year_pattern):
             # Civil
             case (IslamicEpoch.CIVIL, IslamicLeapYearPattern.BASE15):
